@@ -3699,6 +3699,13 @@ func (r *JournalReader) Next() (err error) {
 	if r.offset == 0 {
 		r.sectorSize = binary.BigEndian.Uint32(hdr[20:])
 
+		// SQLite only accepts a power-of-two sector size between 32 bytes and
+		// 64KB. A zero sector size would make the reader find the same header
+		// again forever.
+		if r.sectorSize < 32 || r.sectorSize > 65536 || r.sectorSize&(r.sectorSize-1) != 0 {
+			return io.EOF
+		}
+
 		// Use page size from journal reader, if set to 0.
 		pageSize := binary.BigEndian.Uint32(hdr[24:])
 		if pageSize == 0 {
